@@ -12,18 +12,18 @@ Opt(b, x) == IF b THEN <<x>> ELSE <<>>
 Iter(ns, sys, der, drv) == Rep(ns, "solver_iterations") \o Opt(sys, "system_iterations")
                            \o Opt(der, "deriv") \o Opt(drv, "driver_iterations")
 
-Mk(cases, nreq) == [cases |-> cases, nupd |-> nreq,
+Mk(cases, nreq, dup) == [cases |-> cases, nupd |-> nreq, dup |-> dup,
                     nrows |-> <<"driver_metadata", "system_metadata", "solver_metadata", "system_metadata">>]
 
 Count(bs) == Cardinality({i \in 1..Len(bs) : bs[i]})
 
 ScriptSet ==
     {Mk(Iter(n1, sys, der, drv) \o (IF nd = 2 THEN Iter(n2, sys, der, drv) ELSE <<>>) \o Opt(prob, "problem_cases"),
-        1 + Count(<<sys, n1 + n2 > 0, prob>>)) :
+        1 + Count(<<sys, n1 + n2 > 0, prob>>), prob /\ ~drv) :
         nd \in 1..2, n1 \in 0..3, n2 \in 0..3, sys \in BOOLEAN, der \in BOOLEAN, drv \in BOOLEAN, prob \in BOOLEAN}
 
 AllScripts == ScriptSet
 
 \* one small run for the deliberately broken variant (any run with a case shows the violation)
-SmallScripts == {Mk(Iter(1, TRUE, FALSE, TRUE) \o Iter(1, TRUE, FALSE, TRUE) \o <<"problem_cases">>, 2)}
+SmallScripts == {Mk(Iter(1, TRUE, FALSE, TRUE) \o Iter(1, TRUE, FALSE, TRUE) \o <<"problem_cases">>, 2, TRUE)}
 =============================================================================
